@@ -427,7 +427,7 @@ def _split_top(text, sep):
 def _element_of(text):
     """text picks one element of a collection: the collection's text, else None."""
     for pat in (r'^(?:list|tuple|sorted)\((.*)\)\[(?:0|-1)\]$', r'^next\(iter\((.*)\)\)$', r'^(?:min|max)\((.*)\)$', r'^(.*)\.pop\(\)$',
-                r'^next\((EACH\(.*\))\)$', r'^(EACH\(.*\))\[(?:0|-1)\]$'):
+                r'^next\((EACH\(.*\))(?:, None)?\)$', r'^(EACH\(.*\))\[(?:0|-1)\]$'):
         m = re.match(pat, text)
         if m:
             return m.group(1)
